@@ -37,6 +37,7 @@ type Contract struct {
 	Clauses []*Clause
 	IfaceSig  *types.Signature
 	IfaceName string
+	SplitExprs []ast.Expr
 }
 
 func (c *Contract) Key() string {
@@ -84,6 +85,7 @@ type World struct {
 	tabs      worldTables
 	gt        globalTables
 	closureBindings map[*ssa.MakeClosure][]ssa.Value
+	prof      *Profile
 }
 
 func goEnv() []string {
@@ -151,6 +153,19 @@ func loadWorld(repo string, withContracts bool) (*World, error) {
 		}
 	}
 	w.AllFuncs = ssautil.AllFunctions(prog)
+	// extract the initial values of all package-level variables up front
+	for _, sp := range w.SSAPkgs {
+		var names []string
+		for n := range sp.Members {
+			names = append(names, n)
+		}
+		sort.Strings(names)
+		for _, n := range names {
+			if g, ok := sp.Members[n].(*ssa.Global); ok {
+				w.globalInfoOf(g)
+			}
+		}
+	}
 	if withContracts {
 		if err := w.bindContracts(); err != nil {
 			return nil, err
@@ -356,6 +371,10 @@ func (w *World) collectClauses(c *Contract, pkg *packages.Package, fd *ast.FuncD
 		idv, _ := constInt(pkg.TypesInfo, call.Args[0])
 		switch fname {
 		case "govcClause", "govcTerm":
+			if idv >= 9000 {
+				c.SplitExprs = append(c.SplitExprs, call.Args[1])
+				continue
+			}
 			byId[int(idv)].Expr = call.Args[1]
 		case "govcLoc":
 			id := int(idv)
